@@ -527,19 +527,18 @@ EXPORT errno_t _wcsnorm_decompose_s_chk(wchar_t *restrict dest, rsize_t dmax,
     if (lenp)
         *lenp = 0;
     CHK_DEST_NULL("wcsnorm_s")
+    if (unlikely(dmax == 0)) {
+        invoke_safe_str_constraint_handler("wcsnorm_s: "
+                                           "dmax is 0",
+                                           dest, ESZEROL);
+        return RCNEGATE(ESZEROL);
+    }
     if (unlikely(src == NULL)) {
         invoke_safe_str_constraint_handler("wcsnorm_s: "
                                            "src is null",
                                            dest, ESNULLP);
         *dest = 0;
         return RCNEGATE(ESNULLP);
-    }
-    if (unlikely(dmax == 0)) {
-        invoke_safe_str_constraint_handler("wcsnorm_s: "
-                                           "dmax is 0",
-                                           dest, ESZEROL);
-        *dest = 0;
-        return RCNEGATE(ESZEROL);
     }
     if (unlikely(dmax < 5)) {
         invoke_safe_str_constraint_handler("wcsnorm_s: "
